@@ -133,3 +133,224 @@ Proof.
     unfold emit. intros c1. cbn. destruct (same_ud_put s c (set_chan k (k_wr k) (k_rd k) false PNew)
       ltac:(intros k0 Hk0; rewrite Hg in Hk0; injection Hk0 as <-; auto) c1). lia.
 Qed.
+
+Lemma ud_force_close s c : same_ud s (force_close s c).
+Proof.
+  unfold force_close. destruct (getc s c) as [k|] eqn:Hg; [|apply same_ud_refl]. destruct (k_closable k); [|apply same_ud_refl].
+  eapply same_ud_trans; [|apply same_ud_enq]. apply same_ud_put. intros k0 Hk0. rewrite Hg in Hk0. injection Hk0 as <-. auto.
+Qed.
+
+Lemma ud_start_read s c : same_ud s (start_read s c).
+Proof.
+  unfold start_read. destruct (getc s c) as [k|] eqn:Hg; [|apply same_ud_refl]. destruct (_ && _); [|apply same_ud_refl].
+  apply same_ud_put. intros k0 Hk0. rewrite Hg in Hk0. injection Hk0 as <-. ud_same.
+Qed.
+
+Lemma ud_stop_read s c : same_ud s (stop_read s c).
+Proof.
+  unfold stop_read. destruct (getc s c) as [k|] eqn:Hg; [|apply same_ud_refl]. destruct (_ && _); [|apply same_ud_refl].
+  apply same_ud_put. intros k0 Hk0. rewrite Hg in Hk0. injection Hk0 as <-. ud_same.
+Qed.
+
+Lemma ud_send_in_loop s c full wc : same_ud s (send_in_loop s c full wc).
+Proof.
+  unfold send_in_loop. destruct (getc s c) as [k|] eqn:Hg; [|apply same_ud_refl].
+  destruct (cstate_eqb (k_st k) Disconnected); [apply same_ud_refl|]. destruct (k_wr k); [apply same_ud_refl|]. destruct (k_fin k); [apply same_ud_refl|].
+  destruct full; [destruct wc; [apply same_ud_enq|apply same_ud_refl]|].
+  apply same_ud_put. intros k0 Hk0. rewrite Hg in Hk0. injection Hk0 as <-. ud_same.
+Qed.
+
+Lemma ud_sweep_from n : forall s thr c, same_ud s (fst (sweep_from s thr n c)).
+Proof.
+  induction n as [|n IH]; intros s thr c; cbn [sweep_from]; [apply same_ud_refl|].
+  destruct (getc s c) as [k|] eqn:Hg; [|apply same_ud_refl].
+  destruct (k_alive k && (holders s c =? 0)).
+  - specialize (IH (put s c (kill k)) thr (S c)). destruct (sweep_from (put s c (kill k)) thr n (S c)) as [s' o]. cbn [fst] in *.
+    eapply same_ud_trans; [|exact IH]. apply same_ud_put. intros k0 Hk0. rewrite Hg in Hk0. injection Hk0 as <-. auto.
+  - apply IH.
+Qed.
+
+Lemma cnt_dtors c d : (forall x, In x d -> exists t c0 b, x = ODtor t c0 b) -> cntU c d = 0 /\ cntD c d = 0.
+Proof.
+  induction d as [|x d IH]; intros H; [auto|]. destruct (H x (or_introl eq_refl)) as (t & c0 & b & ->).
+  destruct IH as [I1 I2]; [intros y Hy; apply H; right; exact Hy|]. unfold cntU, cntD in *. cbn. auto.
+Qed.
+
+Lemma cgood_finish s m thr : cgood s m -> cgood s (finish m thr).
+Proof.
+  unfold finish. destruct m as [[s1 o1]| |]; auto. intros Hm.
+  pose proof (ud_sweep_from (length (s_conns s1)) s1 thr 0) as Ls. pose proof (sweep_from_obs (length (s_conns s1)) s1 thr 0) as Os.
+  unfold sweep. destruct (sweep_from s1 thr (length (s_conns s1)) 0) as [s2 d]. cbn [fst snd] in *.
+  destruct (all_clean d); [|exact I]. intros c. destruct (Hm c), (Ls c).
+  destruct (cnt_dtors c d) as [Z1 Z2]; [intros x Hx; destruct (Os x Hx) as (c0 & b & ->); eauto|].
+  rewrite cntU_app, cntD_app. lia.
+Qed.
+
+Lemma ud_add s k rr cc : k_ups k = 0 -> k_downs k = 0 -> same_ud s (add_conn s k rr cc).
+Proof.
+  intros Hu Hd c. unfold upsof, downsof. destruct (Nat.lt_ge_cases c (length (s_conns s))) as [Hlt|Hge].
+  - rewrite getc_add_old by exact Hlt. auto.
+  - assert (E : getc s c = None) by (apply nth_error_None; exact Hge). rewrite E.
+    destruct (Nat.eq_dec c (length (s_conns s))) as [->|Hn].
+    + rewrite getc_add_new. auto.
+    + assert (E2 : getc (add_conn s k rr cc) c = None) by (unfold getc, add_conn; cbn; apply nth_error_None; rewrite app_length; cbn; lia).
+      rewrite E2. auto.
+Qed.
+
+Lemma cgood_accept s : cgood s (accept s).
+Proof.
+  unfold accept. destruct (negb (s_srv s)); [exact I|].
+  match goal with |- cgood s (if ?b then establish ?s1 0 ?c else _) => assert (L : same_ud s s1) by (apply (ud_add s (fresh _ CbServer)); reflexivity) end.
+  destruct (_ =? 0).
+  - eapply cgood_weaken; [exact L|apply cgood_establish].
+  - apply cgood_ret. eapply same_ud_trans; [exact L|apply same_ud_enq].
+Qed.
+
+Lemma cgood_srv_destroy_from n : forall s c, cgood s (srv_destroy_from s n c).
+Proof.
+  induction n as [|n IH]; intros s c; cbn [srv_destroy_from]; [apply cgood_ret, same_ud_refl|].
+  destruct (getc s c) as [k|] eqn:Hg; [|apply cgood_ret, same_ud_refl].
+  destruct (k_ccb k); try apply IH. destruct (k_mapped k && k_alive k); [|apply IH].
+  assert (L : same_ud s (put s c (set_own k CbServer false (k_urefs k) (k_delayed k)))).
+  { apply same_ud_put. intros k0 Hk0. rewrite Hg in Hk0. injection Hk0 as <-. auto. }
+  apply cgood_bind; [|intros s1; apply IH].
+  destruct (k_loop k =? 0).
+  - eapply cgood_weaken; [exact L|apply cgood_connect_destroyed].
+  - apply cgood_ret. eapply same_ud_trans; [exact L|apply same_ud_enq].
+Qed.
+
+Lemma cgood_cli_connect s : cgood s (cli_connect s).
+Proof.
+  unfold cli_connect. destruct (negb (s_cli s)); [exact I|]. destruct (s_cliconn s); [exact I|].
+  match goal with |- cgood s (establish ?s1 0 ?c) => assert (L : same_ud s s1) by (apply (ud_add s (fresh 0 CbClient) (s_rr s)); reflexivity) end.
+  eapply cgood_weaken; [exact L|apply cgood_establish].
+Qed.
+
+Lemma cgood_cli_destroy strict s : cgood s (cli_destroy strict s).
+Proof.
+  unfold cli_destroy. destruct (negb (s_cli s)); [exact I|]. destruct (s_cliconn s) as [c|].
+  - destruct (getc s c) as [k|] eqn:Hg; [|exact I]. destruct (_ && _ && _); [exact I|].
+    set (s1 := put s c (set_own k CbDetail (k_mapped k) (k_urefs k) (k_delayed k))).
+    assert (L1 : same_ud s s1) by (apply same_ud_put; intros k0 Hk0; rewrite Hg in Hk0; injection Hk0 as <-; auto).
+    set (s2 := if holders s c =? 1 then force_close s1 c else s1).
+    assert (L2 : same_ud s s2) by (unfold s2; destruct (holders s c =? 1); [eapply same_ud_trans; [exact L1|apply ud_force_close]|exact L1]).
+    destruct (getc s2 c) as [k2|] eqn:Hg2; [|exact I]. apply cgood_ret.
+    eapply same_ud_trans; [exact L2|]. eapply same_ud_trans; [|apply same_ud_conns; reflexivity].
+    apply same_ud_put. intros k0 Hk0. rewrite Hg2 in Hk0. injection Hk0 as <-. auto.
+  - apply cgood_ret. eapply same_ud_trans; [|apply same_ud_enq]. apply same_ud_conns. reflexivity.
+Qed.
+
+Lemma cgood_run_task s l t full wc : cgood s (run_task s l t full wc).
+Proof.
+  destruct t; cbn [run_task].
+  - apply cgood_establish.
+  - apply cgood_remove_in_loop.
+  - apply cgood_connect_destroyed.
+  - destruct (getc s c) as [k|]; [|exact I]. destruct (k_closable k); [apply cgood_handle_close|apply cgood_ret, same_ud_refl].
+  - apply cgood_ret, same_ud_refl.
+  - destruct (getc s c) as [k|] eqn:Hg; [|exact I]. destruct (k_alive k); [|exact I]. apply cgood_ret.
+    apply same_ud_put. intros k0 Hk0. rewrite Hg in Hk0. injection Hk0 as <-. unfold shutdown_in_loop. destruct (k_wr k); auto.
+  - destruct (match getc s c with Some k => k_alive k | None => false end); [apply cgood_ret, ud_start_read|exact I].
+  - destruct (match getc s c with Some k => k_alive k | None => false end); [apply cgood_ret, ud_stop_read|exact I].
+  - destruct (match getc s c with Some k => k_alive k | None => false end); [apply cgood_ret, ud_send_in_loop|exact I].
+  - destruct (getc s c) as [k|] eqn:Hg; [|exact I]. apply cgood_ret.
+    apply same_ud_put. intros k0 Hk0. rewrite Hg in Hk0. injection Hk0 as <-. auto.
+  - apply cgood_ret, same_ud_refl.
+Qed.
+
+Lemma cgood_ev_step strict s c e : cgood s (ev_step strict s c e).
+Proof.
+  unfold ev_step. destruct (getc s c) as [k|] eqn:Hg; [|exact I]. destruct (negb _); [exact I|].
+  destruct e.
+  - destruct (k_rd k); [|exact I]. intros c1. cbn. lia.
+  - destruct (k_rd k); [|exact I]. destruct (_ && _); [exact I|apply cgood_handle_close].
+  - destruct (k_rd k); [apply cgood_ret, same_ud_refl|exact I].
+  - destruct (_ && _); [exact I|apply cgood_handle_close].
+  - apply cgood_ret, same_ud_refl.
+  - destruct (k_wr k); [|exact I]. destruct drained; [|apply cgood_ret, same_ud_refl]. apply cgood_ret.
+    assert (L : same_ud s (put s c (if cstate_eqb (k_st k) Disconnecting then shutdown_in_loop (chan_update (s_readd s) k false (k_rd k)) else chan_update (s_readd s) k false (k_rd k)))).
+    { apply same_ud_put. intros k0 Hk0. rewrite Hg in Hk0. injection Hk0 as <-. unfold shutdown_in_loop.
+      destruct (cstate_eqb (k_st k) Disconnecting); [destruct (k_wr _)|]; ud_same. }
+    destruct wc; [eapply same_ud_trans; [exact L|apply same_ud_enq]|exact L].
+Qed.
+
+Lemma cgood_on_conn s c f : (forall k, getc s c = Some k -> cgood s (f k)) -> cgood s (on_conn s c f).
+Proof. intros H. unfold on_conn. destruct (getc s c) as [k|] eqn:Hg; [|exact I]. destruct (_ && _); [apply H; reflexivity|exact I]. Qed.
+
+Lemma cgood_step strict s o : cgood s (step strict s o).
+Proof.
+  destruct o; cbn [step].
+  - apply cgood_finish, cgood_accept.
+  - destruct (negb (s_srv s)); [exact I|]. destruct (_ && _); [exact I|]. apply cgood_finish.
+    apply cgood_bind; [apply cgood_srv_destroy_from|]. intros s1. apply cgood_ret, same_ud_conns. reflexivity.
+  - apply cgood_finish, cgood_cli_connect.
+  - apply cgood_finish, cgood_cli_destroy.
+  - destruct (getl s l) as [v|]; [|exact I]. destruct (q_idle v); [|exact I]. apply cgood_ret, same_ud_conns. reflexivity.
+  - destruct (getl s l) as [v|]; [|exact I]. destruct (q_batch v) as [|t rest]; [exact I|]. apply cgood_finish.
+    eapply cgood_weaken; [|apply cgood_run_task]. apply same_ud_conns. reflexivity.
+  - destruct (getl s l) as [v|]; [|exact I]. destruct (q_batch v); [|exact I]. destruct (q_spent v); [exact I|].
+    apply cgood_finish, cgood_ret, same_ud_conns. reflexivity.
+  - destruct (getc s c) as [k|]; [|exact I]. apply cgood_finish, cgood_ev_step.
+  - destruct (getc s c) as [k|] eqn:Hg; [|exact I]. destruct (k_delayed k); [exact I|]. destruct (negb _); [exact I|].
+    apply cgood_finish, cgood_ret.
+    assert (L : same_ud s (put s c (set_own k (k_ccb k) (k_mapped k) (k_urefs k) n))) by (apply same_ud_put; intros k0 Hk0; rewrite Hg in Hk0; injection Hk0 as <-; auto).
+    destruct (k_alive k); [eapply same_ud_trans; [exact L|apply ud_force_close]|exact L].
+  - apply cgood_on_conn. intros k Hg. apply cgood_ret. destruct (cstate_eqb (k_st k) Connected); [|apply same_ud_refl].
+    apply same_ud_put. intros k0 Hk0. rewrite Hg in Hk0. injection Hk0 as <-. unfold shutdown_in_loop. destruct (k_wr _); auto.
+  - apply cgood_on_conn. intros k Hg. apply cgood_ret, ud_force_close.
+  - apply cgood_on_conn. intros k Hg. apply cgood_ret. destruct (k_closable k); [|apply same_ud_refl].
+    apply same_ud_put. intros k0 Hk0. rewrite Hg in Hk0. injection Hk0 as <-. auto.
+  - apply cgood_on_conn. intros k Hg. apply cgood_ret. destruct (cstate_eqb (k_st k) Connected); [apply ud_send_in_loop|apply same_ud_refl].
+  - apply cgood_on_conn. intros k Hg. destruct (k_added k); [apply cgood_ret, ud_start_read|exact I].
+  - apply cgood_on_conn. intros k Hg. destruct (k_added k); [apply cgood_ret, ud_stop_read|exact I].
+  - apply cgood_on_conn. intros k Hg. apply cgood_ret. apply same_ud_put. intros k0 Hk0. rewrite Hg in Hk0. injection Hk0 as <-. auto.
+  - destruct (getc s c) as [k|] eqn:Hg; [|exact I]. destruct (k_urefs k); [exact I|]. destruct (_ && _ && _ && _ && _); [exact I|].
+    apply cgood_finish, cgood_ret. apply same_ud_put. intros k0 Hk0. rewrite Hg in Hk0. injection Hk0 as <-. auto.
+  - destruct (find_call u (s_calls s)); [exact I|]. apply cgood_on_conn. intros k Hg. apply cgood_ret, same_ud_conns. reflexivity.
+  - destruct (find_call u (s_calls s)) as [a|]; [|exact I]. destruct (a_stored a); [exact I|].
+    destruct (getc s (a_conn a)) as [k|] eqn:Hg; [|exact I]. destruct (_ && _); [exact I|]. apply cgood_ret.
+    destruct (_ && _); [|apply same_ud_conns; reflexivity].
+    match goal with |- same_ud s (put ?s1 _ _) => apply (same_ud_trans s s1); [apply same_ud_conns; reflexivity|] end.
+    apply same_ud_put. intros k0 Hk0. change (getc s (a_conn a) = Some k0) in Hk0.
+    rewrite Hg in Hk0. injection Hk0 as <-. auto.
+  - destruct (find_call u (s_calls s)) as [a|]; [|exact I]. destruct (negb (a_stored a)); [exact I|].
+    destruct (getc s (a_conn a)) as [k|] eqn:Hg; [|exact I]. destruct (_ && _ && _ && _); [exact I|].
+    apply cgood_finish, cgood_ret. destruct (a_loaded a); [|apply same_ud_conns; reflexivity].
+    destruct (a_api a); match goal with |- same_ud s (enq ?s1 _ _) => apply (same_ud_trans s s1); [apply same_ud_conns; reflexivity|apply same_ud_enq] end.
+Qed.
+
+Lemma cgood_run strict ops : forall s, cgood s (run strict s ops).
+Proof.
+  induction ops as [|o ops IH]; intros s; cbn [run]; [apply cgood_ret, same_ud_refl|].
+  apply cgood_bind; [apply cgood_step|exact IH].
+Qed.
+
+(* every UP / DOWN a run emits for connection c is counted by c's ghost counters *)
+Theorem S02_counted : forall strict nio readd ops s obs, run strict (init_sys nio readd) ops = Ok (s, obs) ->
+  forall c, cntU c obs = upsof s c /\ cntD c obs = downsof s c.
+Proof.
+  intros strict nio readd ops s obs H c. pose proof (cgood_run strict ops (init_sys nio readd)) as Hg. rewrite H in Hg.
+  destruct (Hg c) as [A B]. unfold upsof, downsof in A, B at 2. unfold getc in A, B at 2. cbn in A, B.
+  destruct c; cbn in A, B; lia.
+Qed.
+
+(* exactly one UP, at most one DOWN, DOWN exactly when closed - for every connection of every run
+   under the environment hypotheses (without H3 the second DOWN of F-19 is reachable: W_f19) *)
+Theorem S02_up_down_once : forall nio readd ops s obs, run true (init_sys nio readd) ops = Ok (s, obs) ->
+  forall c k, getc s c = Some k ->
+  cntU c obs = k_ups k /\ cntD c obs = k_downs k /\ cntU c obs <= 1 /\ cntD c obs <= cntU c obs /\
+  (cntU c obs = 0 <-> k_st k = Connecting) /\ (cntD c obs = 1 <-> k_st k = Disconnected).
+Proof.
+  intros nio readd ops s obs H c k Hg.
+  destruct (S02_counted true nio readd ops s obs H c) as [A B]. unfold upsof, downsof in A, B. rewrite Hg in A, B.
+  assert (Hr : sreach s) by (eapply run_sreach; [apply sreach_init|exact H]).
+  destruct (sreach_inv s Hr) as [[G HC] _]. pose proof (HC c k Hg) as HCk.
+  split; [exact A|]. split; [exact B|]. rewrite A, B.
+  destruct (k_alive k) eqn:Ha.
+  - pose proof (ci_cnt s c k HCk Ha) as Hc. unfold counters_ok in Hc.
+    destruct (k_st k); destruct Hc as [-> ->]; repeat split; intros; try lia; try discriminate; reflexivity.
+  - destruct (ci_deadst s c k HCk Ha) as (E & _ & _ & -> & ->). rewrite E. repeat split; intros; try lia; try discriminate; reflexivity.
+Qed.
+
+Lemma W_f19_counts : exists s o, run false (init_sys 0 false) w_f19 = Ok (s, o) /\ cntU 0 o = 1 /\ cntD 0 o = 2.
+Proof. vm_compute. eexists _, _. repeat split. Qed.
